@@ -11,7 +11,9 @@ S=/tmp/seedrepo.$$
 V=/tmp/seedverif.$$
 rm -rf $S $V; cp -r /repo $S; rm -rf $S/.git/worktrees
 ( cd $S && git apply --whitespace=nowarn "$d/patch.diff" ) || { echo "PATCH-DOES-NOT-APPLY"; rm -rf $S; exit 3; }
-( cd $S && /venv/bin/python -m pytest -q -p no:cacheprovider --timeout=900 --deselect tests/test_integration.py::TestIntegration::test_broken --deselect tests/test_live.py --deselect tests/test_proxy.py::test_bad_proxy --deselect tests/test_proxy.py::test_proxy --deselect tests/test_session.py::test_that_on_ping_responds_with_pong tests 2>&1 | tail -1 )
+# the integration tests bind 127.0.0.1:8080: a private network namespace keeps parallel runs apart
+NS='ip link set lo up 2>/dev/null || /venv/bin/python -c "import socket,fcntl,struct; s=socket.socket(); fcntl.ioctl(s,0x8914,struct.pack(\"16sH\",b\"lo\",0x41))"'
+( cd $S && unshare -n sh -c "$NS; exec \"\$@\"" sh /venv/bin/python -m pytest -q -p no:cacheprovider --timeout=900 --deselect tests/test_integration.py::TestIntegration::test_broken --deselect tests/test_live.py --deselect tests/test_proxy.py::test_bad_proxy --deselect tests/test_proxy.py::test_proxy --deselect tests/test_session.py::test_that_on_ping_responds_with_pong tests 2>&1 | tail -1 )
 if [ -f "$d/demo.py" ]; then
   ( cd $d && PYTHONPATH=$S /venv/bin/python demo.py >/tmp/seed_demo.$$.out 2>&1; echo "demo on mutated tree: exit $?"; tail -2 /tmp/seed_demo.$$.out; rm -f /tmp/seed_demo.$$.out )
   ( cd $d && PYTHONPATH=/repo /venv/bin/python demo.py >/dev/null 2>&1; echo "demo on clean tree: exit $?" )
